@@ -62,9 +62,10 @@ class TProg:
         for ref, el in refs:
             for _ in range(self.rng.randint(0, 2)):
                 lines.append(indent + self.gate(ref, h, el))
-        mode = self.rng.choice(["all", "all", "some", "none", "reset-after"])
-        for ref, el in refs:
-            if mode == "all" or (mode == "some" and self.rng.random() < 0.5) or mode == "reset-after":
+        mode = self.rng.choice(["all", "all", "some", "some", "none", "reset-after", "last-only", "first-only"])
+        for n_el, (ref, el) in enumerate(refs):
+            if (mode == "all" or (mode == "some" and self.rng.random() < 0.5) or mode == "reset-after"
+                    or (mode == "last-only" and n_el == len(refs) - 1) or (mode == "first-only" and n_el == 0)):
                 lines.append(indent + self.measure(ref, h, el, echo=(self.rng.random() < 0.3)))
         if mode == "reset-after":
             ref, el = self.rng.choice(refs)
@@ -82,7 +83,7 @@ def gen(rng):
         if p.nq >= 7:
             break
         if kind == "main":
-            lines, h, key = p.block("    ", rng.random() < 0.8, "m%d" % b, rng.choice(["var", "arr"]), rng.randint(1, 2))
+            lines, h, key = p.block("    ", rng.random() < 0.8, "m%d" % b, rng.choice(["var", "arr", "arr"]), rng.randint(2, 3))
             main += lines
             if key:
                 p.exits_at_end.append((h, key))
@@ -90,7 +91,7 @@ def gen(rng):
             it = rng.randint(1, 3) if p.nq <= 3 else 1
             # the loop body is generated once and replayed `it` times in the model
             start = len(p.toks); h0 = p.nh; e0 = p.echoes; d0 = p.draws_per_shot; nq0 = p.nq
-            lines, h, key = p.block("        ", True, "t%d" % b, rng.choice(["var", "arr"]), rng.randint(1, 2))
+            lines, h, key = p.block("        ", True, "t%d" % b, rng.choice(["var", "arr"]), rng.randint(1, 3))
             body_toks = p.toks[start:] + (["E", str(h), hx(key)] if key else [])
             p.toks = p.toks[:start]
             ne, nd = p.echoes - e0, p.draws_per_shot - d0
@@ -106,7 +107,7 @@ def gen(rng):
         elif kind == "helper":
             calls = rng.randint(1, 3) if p.nq <= 3 else 1
             start = len(p.toks); h0 = p.nh; e0 = p.echoes; d0 = p.draws_per_shot; nq0 = p.nq
-            lines, h, key = p.block("    ", True, "w%d" % b, rng.choice(["var", "arr"]), rng.randint(1, 2))
+            lines, h, key = p.block("    ", True, "w%d" % b, rng.choice(["var", "arr"]), rng.randint(1, 3))
             body_toks = p.toks[start:] + (["E", str(h), hx(key)] if key else [])
             p.toks = p.toks[:start]
             ne, nd = p.echoes - e0, p.draws_per_shot - d0
@@ -185,7 +186,7 @@ def run(chk):
     exe = os.path.join(vlib.repo_build("hooked"), "bin", "bloch")
     tmp = os.path.join(vlib.BUILD, "tmp", "c17-%d" % os.getpid())
     os.makedirs(tmp, exist_ok=True)
-    n_cases = 60 if quick else 700
+    n_cases = 120 if quick else 1500
     stats = {"programs": 0, "tables": 0, "multi_exit_vars": 0, "echo_checks": 0}
     try:
         for ci in range(n_cases):
